@@ -48,6 +48,11 @@ ASSUMPTIONS = [
     "no compound-unit definitions are active (q.clear_unit_definitions())",
     "exponents are compared numerically (Python holds int or float; the model computes exact rationals)",
     "wf sentences: no bare symbol immediately followed by a factor that starts with a letter (the two would read as one symbol)",
+    "time to reject is not part of the property: the validity regular expression backtracks exponentially in the lengths of the "
+    "letter / digit runs of an INVALID string (observed: 369 s for a 70-character corruption); generated inputs that may be "
+    "invalid are kept below 2**14 backtracking paths by shortening their symbols (unitlang.tame)",
+    "a string is judged the same however often and after whatever it is offered (sessions in one fresh interpreter), and by "
+    "every public entry point (constructors, unit setters of quantities, arrays and data sets, define_unit)",
 ]
 
 
@@ -93,6 +98,9 @@ def _shard(args):
     return text, len(U.EXH_ALPHABET) ** n, acc, nontriv, samples
 
 
+TOKEN_STARTS = ["a", "b", "1", "*", "/", "(", U.DOT]
+
+
 def exhaustive_plan(max_len):
     plan = []
     for L in range(0, max_len + 1):
@@ -100,8 +108,12 @@ def exhaustive_plan(max_len):
             plan.append(("", L))
         elif L == 5:
             plan += [(c, 4) for c in U.EXH_ALPHABET]
-        else:
+        elif L == 6:
             plan += [(a + b, L - 2) for a in U.EXH_ALPHABET for b in U.EXH_ALPHABET]
+        else:
+            # length >= 7: only the first characters that can begin a token (a string beginning with ^ - 2 or ) is rejected at
+            # its first character, whatever follows; those are covered exhaustively up to length 6)
+            plan += [(a + b, L - 2) for a in TOKEN_STARTS for b in U.EXH_ALPHABET]
     return plan
 
 
@@ -153,11 +165,12 @@ def gen_stream(rng, n_sent):
             s += "^(" + rng.choice(["1/2", "-1/2", "3/2", "1/3", "2/4", "1/0", "01/02"]) + ")"
         if rng.random() < 0.3:
             s = rng.choice(["a/(", "1/(", "("]) + s + ")"
+        s = U.tame(s)
         cases.append(("library-notation", s))
         cases.append(("corruption", U.corrupt(rng, s)))
     # junk
     for _ in range(n_sent // 10):
-        cases.append(("junk", "".join(rng.choice(U.CORRUPT) for _ in range(rng.randrange(0, 9)))))
+        cases.append(("junk", U.tame("".join(rng.choice(U.CORRUPT) for _ in range(rng.randrange(0, 9))))))
     return cases
 
 
@@ -185,7 +198,7 @@ def correspondence(ctx):
     res.evaluations += n_exh
 
     # random sentences, corruptions, corpus
-    stream = [(c["kind"], c["case"]) for c in load_corpus()] + gen_stream(rng, ctx.n(1500, 40000))
+    stream = [(c["kind"], c["case"]) for c in load_corpus() if isinstance(c["case"], str)] + gen_stream(rng, ctx.n(1500, 40000))
     seen, cases = set(), []
     vp = _valid_pattern()
     for kind, s in stream:
@@ -206,7 +219,8 @@ def correspondence(ctx):
         index.append(("stream", k))
     res.nontrivial = set(seen) | {"exh:{}".format(i) for i in range(nontriv_exh)}
     res.exhaustive = True
-    res.rule = ("(1) EVERY string of length <= {} over the 11 characters a b ^ - 1 2 * / ( ) and the dot sign ({} strings, {} accepted): "
+    res.rule = ("(1) EVERY string of length <= {} over the 11 characters a b ^ - 1 2 * / ( ) and the dot sign (at length 7 only those "
+                "beginning with a character that can start a token: a b 1 * / ( dot; {} strings, {} accepted): "
                 "the model must accept exactly the strings the implementation accepts, with the same ordered exponent list; "
                 "(2) random sentences of the property's grammar (1-5 terms, juxtaposition, bracketed groups, all three "
                 "multiplication spellings, repeated symbols), two single-character corruptions of each (insert / delete / replace "
@@ -214,7 +228,7 @@ def correspondence(ctx):
                 "('1/..', '^(p/q)') and junk strings, compared as Rejected or the ordered exponent list. "
                 "non-trivial = accepted by the implementation, or passing the validity regular expression and rejected by a later "
                 "stage (coverage, bracket recursion, builder, evaluator); counted distinct by string").format(
-        max_len, n_exh, n_acc)
+        min(max_len, 6) if max_len >= 7 else max_len, n_exh, n_acc)
     for kind, s, r in cases[:400]:
         if kind == "sentence" and len(res.samples) < 5:
             res.samples.append({"sentence": s, "observed": None if r is None else [[k, str(Fraction(v))] for k, v in r]})
@@ -274,25 +288,184 @@ def shrink_string(s, fails):
     return cur
 
 
+def _same(a, b):
+    """two parse outcomes (None or list of (symbol, exponent)) agree"""
+    if a is None or b is None or a == "weird" or b == "weird":
+        return a is None and b is None
+    return [(k, Fraction(v)) for k, v in a] == [(k, Fraction(v)) for k, v in b]
+
+
+def _units_of(obj):
+    out = []
+    for k, v in obj._unit.items():
+        if not isinstance(k, str) or isinstance(v, bool) or not isinstance(v, (int, float)):
+            return "weird"
+        out.append((k, v))
+    return out
+
+
+def judge_entry_points(s):
+    """every public way of handing a unit string to the library must treat [s] like parse_unit_string does (same
+    acceptance, same exponents), and a rejected string must leave the object / the table of definitions as it was"""
+    import qexpy as q
+    import qexpy.utils.units as UU
+    if not s:
+        return None
+    ref = U.impl_parse(s)
+    old = [("kg", 1), ("zq", 2)]
+    results = []
+
+    def attempt(label, make, rollback_probe=None):
+        try:
+            got = make()
+        except Exception:  # noqa
+            got = None
+            if rollback_probe is not None:
+                left = rollback_probe()
+                if left is not None:
+                    results.append("{} rejected {!r} but left {}".format(label, s, left))
+        if not _same(ref, got):
+            results.append("{} {} {!r}{} while parse_unit_string {}".format(
+                label, "rejects" if got is None else "accepts", s,
+                "" if got is None else " as " + str(got), "rejects it" if ref is None else "gives " + str(ref)))
+
+    attempt("Measurement(unit=...)", lambda: _units_of(q.Measurement(1.0, 0.1, unit=s)))
+    m = q.Measurement(2.0, 0.2, unit="kg*zq^2")
+
+    def set_m():
+        m.unit = s
+        return _units_of(m)
+    attempt("the unit setter", set_m, lambda: None if _units_of(m) == old else "the unit {}".format(_units_of(m)))
+
+    def arr_ctor():
+        arr = q.MeasurementArray([1.0, 2.0], 0.5, unit=s)
+        us = [_units_of(x) for x in arr]
+        return us[0] if all(_same(us[0], u) for u in us) else "weird"
+    attempt("MeasurementArray(unit=...)", arr_ctor)
+    arr2 = q.MeasurementArray([1.0, 2.0, 3.0], 0.5, unit="kg*zq^2")
+
+    def arr_set():
+        arr2.unit = s
+        us = [_units_of(x) for x in arr2]
+        return us[0] if all(_same(us[0], u) for u in us) else "weird"
+    attempt("the unit setter of a MeasurementArray", arr_set,
+            lambda: None if all(_units_of(x) == old for x in arr2) else "elements with units {}".format([_units_of(x) for x in arr2]))
+
+    def xy_ctor():
+        d = q.XYDataSet([1.0, 2.0, 3.0], [2.0, 3.0, 4.0], xunit=s, yunit="kg")
+        return _units_of(d.xdata[0])
+    attempt("XYDataSet(xunit=...)", xy_ctor)
+    d2 = q.XYDataSet([1.0, 2.0, 3.0], [2.0, 3.0, 4.0], xunit="s", yunit="kg*zq^2")
+
+    def xy_set():
+        d2.yunit = s
+        return _units_of(d2.ydata[1])
+    attempt("the yunit setter of an XYDataSet", xy_set,
+            lambda: None if all(_units_of(x) == old for x in d2.ydata) else "y elements with units {}".format([_units_of(x) for x in d2.ydata]))
+
+    def define():
+        q.define_unit("Zq", s)
+        got = UU.UNIT_DEFINITIONS["Zq"]
+        return [(k, v) for k, v in got.items()]
+    try:
+        attempt("define_unit", define, lambda: "a definition of 'Zq'" if "Zq" in UU.UNIT_DEFINITIONS else None)
+    finally:
+        q.clear_unit_definitions()
+    return results[0] if results else None
+
+
+def judge_case(case):
+    """one string, or a session {"session": [s1, ..., sn]}: the strings are offered to the parser one after the other in
+    ONE fresh library state and the last one is judged (state the library keeps between calls thereby becomes part of
+    the input: a string must be judged the same however often and after whatever it is offered)"""
+    core.fresh_impl()            # a fresh library state; deliberately NOT followed by any reset / clear call
+    if isinstance(case, dict) and "entry" in case:
+        return judge_entry_points(case["entry"])
+    if isinstance(case, dict):
+        sess = case["session"]
+        for s in sess[:-1]:
+            U.impl_parse(s)
+        why = U.judge(sess[-1])
+        return "after {} earlier parse(s) in the same interpreter ({}): {}".format(
+            len(sess) - 1, ", ".join(repr(x) for x in sess[:-1][:4]), why) if why else None
+    return U.judge(case)
+
+
 def search(ctx, suspects, budget):
     t0 = time.time()
+    core.fresh_impl()
     U.clear_global_state()
     out, seen_what = [], set()
+    journal = []          # the strings offered to the library so far in this process (most recent last)
 
-    def report(s):
-        small = shrink_string(s, lambda x: U.judge(x) is not None)
-        why = U.judge(small)
-        cls = re.sub(r"'[^']*'|\{[^}]*\}", "_", why)
+    def add(case, why):
+        cls = re.sub(r"'[^']*'|\{[^}]*\}|\([^)]*\)", "_", why)
         if cls in seen_what and len(out) >= 2:
             return
         seen_what.add(cls)
-        out.append(Violation(ID, "string", small, why))
+        out.append(Violation(ID, "string" if isinstance(case, str) else ("entry" if "entry" in case else "session"), case, why))
 
-    todo = [d["case"] for d in suspects if d.get("kind") == "string" and isinstance(d.get("case"), str)]
-    todo += [c["case"] for c in load_corpus()]
-    for s in todo:
+    def examine_entry(s):
+        """the other public entry points against parse_unit_string, from the running state and then from a fresh one"""
+        if judge_entry_points(s):
+            small = shrink_string(s, lambda x: judge_entry_points(x) is not None)
+            case = {"entry": small}
+            why = judge_case(case)
+            if not why:
+                case, why = {"entry": s}, judge_case({"entry": s})
+            add(case, why or (judge_entry_points(s) or "") + " (only after the cases of this run)")
+
+    def report(s):
+        """a failure seen in the running process is re-established from a fresh library state: the shrunk string alone,
+        else the string offered twice, else after the shortest run of the strings offered before it"""
+        nonlocal journal
+        small = shrink_string(s, lambda x: U.judge(x) is not None)
+        for cand in (small, s):
+            why = judge_case(cand)
+            if why:
+                add(cand, why)
+                break
+            sess = {"session": [cand, cand]}
+            why = judge_case(sess)
+            if why:
+                add(sess, why)
+                break
+        else:
+            recent = journal[-400:]
+            if judge_case({"session": recent + [s]}):
+                prefix = core.minimize_session(recent, lambda p: judge_case({"session": p + [s]}) is not None)
+                sess = {"session": prefix + [s]}
+                add(sess, judge_case(sess) or U.judge(s) or "")
+            else:
+                add(s, (U.judge(s) or "violation seen only in the running process") +
+                    " (only after the cases of this run, not reproduced from a fresh library state)")
+        core.fresh_impl()
+        U.clear_global_state()
+        journal = []
+
+    def examine(s):
         if U.judge(s):
             report(s)
+        else:
+            journal.append(s)
+            if len(journal) > 5000:
+                del journal[:2500]
+
+    todo = [d["case"] for d in suspects if d.get("kind") == "string" and isinstance(d.get("case"), str)]
+    for c in load_corpus():
+        if isinstance(c["case"], dict):
+            why = judge_case(c["case"])
+            if why:
+                add(c["case"], why)
+        else:
+            todo.append(c["case"])
+    for s in todo:
+        examine(s)
+    # every string must be judged the same when it is offered again (a retry after the error message)
+    for s in todo[:60]:
+        examine(s)
+    for s in todo[:ctx.n(40, 400)]:
+        examine_entry(s)
     # exhaustive small scope: the oracle is total (sentence <-> must be accepted with the conventional meaning)
     max_len = 5 if (budget >= 20 or not ctx.quick) else 4
     done_len = -1
@@ -302,12 +475,10 @@ def search(ctx, suspects, budget):
             if i % 4096 == 0 and time.time() - t0 > budget * 0.5:
                 stop = True
                 break
-            s = "".join(w)
-            if U.judge(s):
-                report(s)
-                if len(out) >= 4:
-                    stop = True
-                    break
+            examine("".join(w))
+            if len(out) >= 4:
+                stop = True
+                break
         if stop:
             break
         done_len = L
@@ -316,16 +487,19 @@ def search(ctx, suspects, budget):
     while len(out) < 5 and time.time() - t0 < budget and n < ctx.n(4000, 200000):
         s = U.gen_sentence(rng)
         n += 1
-        for cand in (s, U.corrupt(rng, s), U.corrupt(rng, s), "1/" + s):
-            if U.judge(cand):
-                report(cand)
-    ctx.notes.append("oracle: all strings of length <= {} over the 11-character alphabet, {} random sentences with corruptions".format(
-        done_len, n))
+        cands = [s, U.corrupt(rng, s), U.corrupt(rng, s), "1/" + s]
+        for cand in cands + cands[1:3]:          # the corruptions are offered a second time
+            examine(cand)
+        if n % ctx.n(8, 3) == 0:
+            for cand in cands[:3]:
+                examine_entry(cand)
+    ctx.notes.append("oracle: all strings of length <= {} over the 11-character alphabet, {} random sentences with corruptions "
+                     "(corruptions and corpus strings offered twice)".format(done_len, n))
     U.clear_global_state()
     return out[:5]
 
 
 def replay(ctx, v):
+    why = judge_case(v["case"])
     U.clear_global_state()
-    why = U.judge(v["case"])
     return Violation(ID, v["kind"], v["case"], why) if why else None
